@@ -21,6 +21,7 @@ CONSTANTS TMin, TMax, Pts,     \* abstract type and the points entries use
           FixTrunc, FixGuard, FixOct0,   \* BOOLEAN, see ValueMapImplOps
           FixSkip, FixUncl,              \* BOOLEAN, see ValueMapImplOps
           FixCase, FixItems,             \* BOOLEAN: fl.vbx, fl.itl
+          ItemsOnce,                     \* BOOLEAN: fl.once
           Lenient,                       \* fl.len: subset of BadClasses
           WithLex,                       \* BOOLEAN: BAD entries of every lexeme class
           Emit,                          \* BOOLEAN
@@ -33,7 +34,8 @@ vars == <<map, len>>
 
 Flags == [trunc |-> FixTrunc, guard |-> FixGuard, oct0 |-> FixOct0,
           skip |-> FixSkip, uncl |-> FixUncl, vbx |-> FixCase,
-          len |-> Lenient, itl |-> FixItems]
+          len |-> Lenient, itl |-> FixItems,
+          once |-> ItemsOnce]
 LenNone == {}
 LenNl == {"nl"}
 LenUdigit == {"udigit"}
@@ -82,7 +84,8 @@ Vec(m, hasmap, hasvals, nq, hasdflt) ==
   [tmin |-> TMin, tmax |-> TMax, zero |-> 0, hasmap |-> hasmap, map |-> m,
    hasvals |-> hasvals, vals |-> [i \in 1..nq |-> ValName[i]],
    hasdflt |-> hasdflt, dflt |-> "dflt",
-   ctor |-> "", tv |-> << >>, tb |-> << >>, items |-> << >>]
+   ctor |-> "", tv |-> << >>, tb |-> << >>, items |-> << >>,
+   items2 |-> << >>]
 
 (* Values sizes tried for a ValueMap of n entries *)
 Sizes(n) == {q \in {n - 2, n - 1, n, n + 1, n + 2, 2 * n + 1} : q >= 0}
@@ -166,7 +169,8 @@ Ideal(e) ==
                            [lo |-> AllV[j], hi |-> AllV[j], ok |-> r.ok, s |-> r.s]],
                  !.tb = [j \in DOMAIN vals |-> bin(MinOf(Idx(vals, vals[j])))]
                         \o <<Bin("nosuch", "E", 0, 0)>>,
-                 !.items = [i \in DOMAIN m |-> bin(i)]]
+                 !.items = [i \in DOMAIN m |-> bin(i)],
+                 !.items2 = [i \in DOMAIN m |-> bin(i)]]
 ReqSatisfiable == \A e \in Vectors(map) : Fails(0, Ideal(e)) = {}
 
 (* checking a segment at its break points = checking every value in it *)
